@@ -563,3 +563,24 @@ fn inventory() -> serde_json::Value {
     }
     json!(found)
 }
+
+pub fn replay(case: &serde_json::Value) {
+    let insts: Vec<Script> = case["instances"]
+        .as_array()
+        .into_iter()
+        .flatten()
+        .map(|i| Script { name: "replayed", opts: i["options"].as_u64().unwrap_or(1) as u8, calls: i["calls"].as_array().into_iter().flatten().map(|c| Arc::new(crate::bits::unhex(c.as_str().unwrap_or("")))).collect() })
+        .collect();
+    let cfg: Vec<&Script> = insts.iter().collect();
+    let mut order: Vec<usize> = case["order"].as_array().into_iter().flatten().map(|v| v.as_u64().unwrap() as usize).collect();
+    if order.is_empty() {
+        order = (0..cfg.len()).flat_map(|i| std::iter::repeat(i).take(cfg[i].calls.len())).collect();
+    }
+    let obs = if case["placement"].as_str() == Some("thread-per-instance") { run_thread_per_instance(&cfg, &order) } else { run_same_thread(&cfg, &order) };
+    for (i, s) in insts.iter().enumerate() {
+        let s2 = s.clone();
+        let alone = std::thread::spawn(move || solo(&s2)).join().unwrap_or_default();
+        println!("instance {i} ({}): interleaved {:?}", case["instances"][i]["name"], obs[i]);
+        println!("instance {i}: alone       {:?}{}", alone, if alone == obs[i] { "" } else { "   <-- differs" });
+    }
+}
